@@ -328,7 +328,9 @@ The parameters of this process are described within the [Stack.IsEqual]
 notes.
 */
 func (r Condition) IsEqual(o any) (err error) {
-	if r.IsInit() {
+	if !r.IsInit() {
+		err = errorf("Not initialized")
+	} else {
 		// handle condition/condition-alias assertion
 		// and exit immediately if it fails due to a
 		// bad type, or uninitialized input for o.
